@@ -180,26 +180,45 @@ struct TraceExec final : yaclib::IExecutor {
   std::string name;
 };
 
-// what a When* combinator callback does with a shared input (when.hpp: `core.Retire()`), reduced to its core
+// what a When* combinator callback does with a shared input (when.hpp), reduced to its core: it is ENTERED (Here / Next, or
+// inline by the registrar) and its combinator calls `core.Retire()` — at once inside the entry (Managed strategies, `own =
+// false`) or later, from the combinator's destructor, possibly on another thread (Owned strategies, `own = true`: here the
+// root fiber retires after every other fiber has finished).
+struct RetireCb;
+std::vector<std::pair<RetireCb*, CoreT*>> gOwned;
+
 struct RetireCb final : yaclib::detail::InlineCore {
-  explicit RetireCb(std::string n) : name{std::move(n)} {
+  RetireCb(std::string n, bool o) : name{std::move(n)}, own{o} {
   }
-  void Consume(CoreT& core) {
+  void Enter(CoreT& core) {
+    if (!gObs.set_started) Bad("combinator callback " + name + " entered before Set started");
+    if (++entered != 1) Bad("combinator callback " + name + " entered " + std::to_string(entered) + " times");
+    vx::Ev("enter " + name);
+    if (own) {
+      gOwned.emplace_back(this, &core);
+    } else {
+      Retire(core);
+    }
+  }
+  void Retire(CoreT& core) {
+    vx::Ev("retiring " + name);
     auto r = core.Retire();
     OnRun("consume", name, Show(r), true);
     delete this;
   }
   [[nodiscard]] yaclib::detail::InlineCore* Here(yaclib::detail::InlineCore& caller) noexcept final {
-    Consume(yaclib::DownCast<CoreT>(caller));
+    Enter(yaclib::DownCast<CoreT>(caller));
     return nullptr;
   }
 #if YACLIB_SYMMETRIC_TRANSFER != 0
   [[nodiscard]] yaclib_std::coroutine_handle<> Next(yaclib::detail::InlineCore& caller) noexcept final {
-    Consume(yaclib::DownCast<CoreT>(caller));
+    Enter(yaclib::DownCast<CoreT>(caller));
     return yaclib_std::noop_coroutine();
   }
 #endif
   std::string name;
+  bool own;
+  int entered = 0;
 };
 
 struct ObsCtx {
@@ -302,13 +321,13 @@ void RunOp(ObsCtx& o, const std::string& op) {
       OnRun("forward", n, Show(r), true);
     });
     yaclib::Connect(sf, std::move(sp2));
-  } else if (op == "retire") {
+  } else if (op == "retire" || op == "retire_own") {
     auto n = o.NewCb();
-    auto* cb = new RetireCb{n};
+    auto* cb = new RetireCb{n, op == "retire_own"};
     auto& core = *sf.GetCore().Release();  // when.hpp: the combinator takes the future's reference
     o.copies.pop_back();
     if (!core.SetCallback(*cb)) {
-      cb->Consume(core);
+      cb->Enter(core);
     }
   } else {
     Bad("harness: unknown operation " + op);
@@ -335,6 +354,7 @@ void RunScenario(const Scenario& sc) {
   gCoreMoves = gCoreDtors = 0;
   gMovers.clear();
   gQueue.clear();
+  gOwned.clear();
   gLate = sc.exec == "late";
   gObs.value_payload = sc.prod.size() > 3 && sc.prod.compare(sc.prod.size() - 3, 3, ":42") == 0;
   gWant = gObs.value_payload ? "val:42" : "err";
@@ -436,6 +456,8 @@ void RunScenario(const Scenario& sc) {
   for (auto& t : ts) t.join();
   for (auto* job : gQueue) job->Call();  // executor drained late: the jobs outlive every SharedFuture
   gQueue.clear();
+  for (auto& [cb, core] : gOwned) cb->Retire(*core);  // Owned combinators are destroyed last, on this (the root) fiber
+  gOwned.clear();
   for (auto& o : obs) {
     if (!o.copies.empty()) Bad("harness: unbalanced program, a SharedFuture copy was left");
     o.copies.clear();
@@ -471,12 +493,13 @@ std::vector<Scenario> AllScenarios(std::uint64_t seed, bool big) {
     {"sub_inline", "drop"}, {"then_inline", "drop"}, {"sub_exec", "drop"}, {"then_exec", "drop"}, {"wait", "drop"},
     {"getc", "drop"},       {"get_move"},            {"ready", "drop"},    {"ready_touch", "drop"}, {"copy", "drop", "drop"},
     {"connect", "drop"},    {"connect_sp", "drop"},  {"retire"},           {"drop"},
+    {"retire_own"},
   };
   const std::vector<Prog> doubles = {
     {"sub_inline", "get_move"},          {"copy", "get_move", "drop"},   {"ready_touch", "sub_inline", "drop"},
     {"connect", "get_move"},             {"copy", "retire", "get_move"}, {"sub_exec", "ready", "drop"},
     {"wait", "ready_touch", "drop"},     {"copy", "drop", "retire"},     {"then_exec", "connect", "drop"},
-    {"getc", "get_move"},
+    {"getc", "get_move"},                {"copy", "retire_own", "get_move"}, {"copy", "drop", "retire_own"},
   };
   // every pair of single-operation observers
   auto core_op = [](const Prog& p) {
@@ -503,6 +526,8 @@ std::vector<Scenario> AllScenarios(std::uint64_t seed, bool big) {
     {{"retire"}, {"connect_sp", "drop"}, {"copy", "drop", "drop"}},
     {{"wait", "drop"}, {"then_inline", "drop"}, {"retire"}},
     {{"get_move"}, {"get_move"}, {"connect", "drop"}},
+    {{"retire_own"}, {"retire"}, {"connect", "drop"}},
+    {{"retire_own"}, {"then_exec", "drop"}, {"get_move"}},
   };
   for (auto& t : triples) out.push_back({"set:42", "now", t});
   // the other producer forms (shared core entered as a callback through Here / through Next, shared coroutine, contract-on),
@@ -514,6 +539,7 @@ std::vector<Scenario> AllScenarios(std::uint64_t seed, bool big) {
     {{"then_inline", "drop"}, {"get_move"}},
     {{"connect", "drop"}, {"sub_inline", "drop"}},
     {{"getc", "drop"}, {"retire"}},
+    {{"retire_own"}, {"retire_own"}, {"sub_inline", "drop"}},
   };
   for (auto& form : forms)
     for (auto& subs : subscribers) out.push_back({form, "now", subs});
